@@ -249,3 +249,8 @@ func (p *Prog) ExportedAPIOf(pkg *ssa.Package) []*ssa.Function {
 	}
 	return out
 }
+
+// InModuleGlobal reports whether g is a package-level variable of the module.
+func (p *Prog) InModuleGlobal(g *ssa.Global) bool {
+	return g.Pkg != nil && strings.HasPrefix(g.Pkg.Pkg.Path(), p.ModPrefix)
+}
